@@ -373,9 +373,12 @@ def gen_cases(run, n_chains, max_ops):
             init[d["modified"]][1] = mv
         if carrier == "dict":
             r = rng.random()
-            if r < 0.08 and "modified" in d:          # only `created` present
+            if r < 0.05 and "modified" in d:          # only `created` present
                 init = [kv for kv in init if kv[0] not in ("modified", "revoked")]
-            elif r < 0.14:
+            elif r < 0.12 and "modified" in d:        # `created` and `revoked` but no `modified`
+                init = [kv for kv in init if kv[0] not in ("modified", "revoked")]
+                init.append(["revoked", J(rng.choice([False, False, True]))])
+            elif r < 0.18:
                 init.append(["revoked", J(False)])
         case = {"carrier": carrier, "ver": ver, "init": init, "allow_custom": False, "ty": ty, "kind": "versionable",
                 "naive": naive}
@@ -477,6 +480,9 @@ def special_cases(run, n):
                 init.insert(1, ["spec_version", J("2.1")])
             else:
                 init.append(["identity_class", J("individual")])
+            if carrier == "dict":                 # any subset of the other two versioning properties may be missing
+                drop = rng.choice([(), (), ("modified",), ("created",), ("modified", "created")])
+                init = [kv for kv in init if kv[0] not in drop]
             case = {"carrier": carrier, "ver": ver, "init": init, "ty": "identity", "kind": "revoked", "allow_custom": False}
             case["ops"] = [{"op": "new", "changes": [["name", J("m")]], "now": t0 + DAY, "allow_custom": None, "legal": False},
                            {"op": "revoke", "now": t0 + DAY, "legal": False},
